@@ -158,7 +158,17 @@ pub fn child_main(args: &[String]) -> i32 {
     let conv: usize = args.get(2).and_then(|s| s.parse().ok()).unwrap_or(0);
     let hseed: u64 = args.get(3).and_then(|s| s.parse().ok()).unwrap_or(0);
     let clock: u64 = args.get(4).and_then(|s| s.parse().ok()).unwrap_or(0);
-    let vals: Vec<u64> = args.get(5).map(|s| s.split(',').filter_map(|x| x.parse().ok()).collect()).unwrap_or_default();
+    // the tape comes as an argument, or on standard input when it is too long for one ("@stdin")
+    let tape_text = match args.get(5).map(|s| s.as_str()) {
+        Some("@stdin") => {
+            let mut s = String::new();
+            let _ = std::io::Read::read_to_string(&mut std::io::stdin(), &mut s);
+            s
+        }
+        Some(s) => s.to_string(),
+        None => String::new(),
+    };
+    let vals: Vec<u64> = tape_text.split(',').filter_map(|x| x.trim().parse().ok()).collect();
     match hashseed::with_hash_seed(hseed, move || convert_here(conv, vals, clock)) {
         Ok(o) => {
             println!("{} {:016x} {}", o.kind, fnv64(o.dump.as_bytes()), o.dump.len());
@@ -338,7 +348,20 @@ impl Check for C20 {
             tick();
             let exe = std::env::current_exe().expect("exe");
             let tape_arg = vals.iter().map(|v| v.to_string()).collect::<Vec<_>>().join(",");
-            let o = std::process::Command::new(exe).arg("c20-child").arg(conv.to_string()).arg(outcomes[0].0.to_string()).arg("0").arg(if tape_arg.is_empty() { "-".to_string() } else { tape_arg }).stdin(std::process::Stdio::null()).stderr(std::process::Stdio::null()).output();
+            let o = if tape_arg.len() < 60_000 {
+                std::process::Command::new(exe).arg("c20-child").arg(conv.to_string()).arg(outcomes[0].0.to_string()).arg("0").arg(if tape_arg.is_empty() { "-".to_string() } else { tape_arg }).stdin(std::process::Stdio::null()).stderr(std::process::Stdio::null()).output()
+            } else {
+                // one argument may not exceed 128 KiB: long tapes go through a pipe, written from a helper thread
+                std::process::Command::new(exe).arg("c20-child").arg(conv.to_string()).arg(outcomes[0].0.to_string()).arg("0").arg("@stdin").stdin(std::process::Stdio::piped()).stdout(std::process::Stdio::piped()).stderr(std::process::Stdio::null()).spawn().and_then(|mut ch| {
+                    let mut si = ch.stdin.take().expect("child stdin");
+                    let w = std::thread::spawn(move || {
+                        let _ = std::io::Write::write_all(&mut si, tape_arg.as_bytes());
+                    });
+                    let r = ch.wait_with_output();
+                    let _ = w.join();
+                    r
+                })
+            };
             match o {
                 Ok(o) if o.status.success() => {
                     out.probes.hit("child_process_runs");
